@@ -227,13 +227,18 @@ def part_a_graphs(ck, replay):
         if len(cases) != 4096:
             raise vf.NotAVerdict("IncludeGraph emitted %d cases, expected 4096" % len(cases))
     obs = vf.run_harness("vmut", "incgraph", cases, args=["-a", "repo=" + vf.REPO], timeout=1500)
-    seen, match, cyc = set(), 0, 0
+    seen, match, cyc, not_run = set(), 0, 0, 0
     bad = {}
     for o in obs:
         if "harness_fatal" in o:
             raise vf.NotAVerdict("harness: " + o["harness_fatal"][:1500])
         c = cases[o["i"]]
         seen.add(o["i"])
+        if o["class"] == "NotRun":
+            not_run += 1
+            continue
+        if o["class"] == "Slow":
+            continue   # beyond 10 s after the 3 confirmations (100 s each) were used
         if o["class"] in c["allowed"]:
             if o.get("pkgs") == len(c["expect"]["reachable_with_pkg"]):
                 match += 1
@@ -254,6 +259,10 @@ def part_a_graphs(ck, replay):
     ck.count(len(cases))
     ck.cov["distinct_nontrivial"] += cyc
     ck.cov["traces_validated_against_impl"] += len(cases)
+    if not_run:
+        if not bad:
+            raise vf.NotAVerdict("incgraph stopped early without a finding")
+        ck.cov["not_explored"].append("(a) %d include graphs were not started after 8 graphs had already failed" % not_run)
     ck.cov["a_include_graphs"] = len(cases)
     ck.cov["a_include_graphs_with_an_include_of_a_package_less_file"] = cyc
     ck.cov["a_include_graphs_package_count_equals_reachable_set"] = match
